@@ -382,9 +382,11 @@ def handle (j : Json) : Json :=
   | "http-respond" =>
     -- {"ops":[{query,operationName,hash,plannable,execOK}], "batch":b}
     let items := getArr j "ops"
-    let ops : List Http.OpReq := items.map fun o => ⟨getStr o "query", getStr o "operationName", getStr o "hash"⟩
+    -- the flags belong to the POSITION of an operation (two members with the same text may differ in their variables,
+    -- and so in whether they execute): the handler's decisions do not look at the operation name, so it carries the index
+    let ops : List Http.OpReq := (List.range items.length).zip items |>.map fun (i, o) => ⟨getStr o "query", toString i, getStr o "hash"⟩
     let flag (name : String) (o : Http.OpReq) : Bool :=
-      (items.find? fun x => getStr x "query" == o.query && getStr x "operationName" == o.opName && getStr x "hash" == o.hash).map (getBool · name) |>.getD false
+      ((List.range items.length).zip items |>.find? fun (i, _) => toString i == o.opName).map (fun (_, x) => getBool x name) |>.getD false
     let r := Http.handleOps (flag "plannable") (flag "execOK") ops (getBool j "batch")
     Json.mkObj [("status", .num r.status), ("executed", .num r.executed),
       ("shape", match r.body with | .single _ => .str "entry" | .list _ => .str "list"),
